@@ -110,6 +110,17 @@ func (r *Run) NoteReject(msg string) {
 }
 
 func (r *Run) Count(k string, n int) { r.mu.Lock(); r.counters[k] += n; r.mu.Unlock() }
+// MergeCounts adds selected entries of m to the counters under a prefix.
+func (r *Run) MergeCounts(prefix string, m map[string]int, keys []string) {
+	r.mu.Lock()
+	for _, k := range keys {
+		if v := m[k]; v > 0 {
+			r.counters[prefix+k] += v
+		}
+	}
+	r.mu.Unlock()
+}
+
 func (r *Run) Counter(k string) int  { r.mu.Lock(); defer r.mu.Unlock(); return r.counters[k] }
 func (r *Run) Inconclusive(k string) { r.mu.Lock(); r.inconclusive[k]++; r.mu.Unlock() }
 
